@@ -12,7 +12,7 @@ CLAIMED = {
          "Trusted: TLC, CommunityModules Json/IOUtils, Go's unicode tables (source of Unicode.tla), the harness printer (AST -> text). Bounded: depth/size of ASTs and input length.",
          "6/C01"),
 }
-API_NOTE = "Trusted: TLC, CommunityModules Json/IOUtils, Go's unicode tables and utf8 decoding (cross-checked per input against API.tla's decoder), the harness printer. Outside the exact fragment (nullable loops, \\G, balancing groups) the reference search table is the one recorded from FindRunesMatchStartingAt; bounded: AST size, inputs <= 14 runes."
+API_NOTE = "Trusted: TLC, CommunityModules Json/IOUtils, Go's unicode tables and utf8 decoding (cross-checked per input against API.tla's decoder), the harness printer. Outside the exact oracle (\\G, balancing groups, explicitly numbered sparse groups) the reference search table is the one recorded from FindRunesMatchStartingAt; bounded: AST size, inputs <= 14 runes."
 API_TECH = "trace/observation validation: one record of every entry point's result per (pattern, input) is accepted by TLC iff it is what the TLA+ module API.tla (folds over one search function; RegexSem.Find inside the fragment) derives"
 CLAIMED.update({
  "C15": ("model_checking", CLAIMED["C01"][1] + " (RightToLeft: direction flag per continuation frame, descending scan)",
@@ -21,21 +21,21 @@ CLAIMED.update({
  "C02": ("model_checking", API_TECH, "Every public entry point's result for one compiled pattern and one input is logged in one record and TLC accepts it only if all of them are the images of one search function under API.tla (bool <=> find, string = rune results modulo byte/rune conversion, StartingAt at every offset, FindNextMatch chains, find-all, ReplaceFunc enumeration); inside the fragment that function is the specification's.", API_NOTE, "6/C02"),
  "C07": ("model_checking", API_TECH + "; iteration laws (strictly advancing, disjoint, no repeated empty match, <= len+1 matches, = chain of independent searches) and the find-all rule are TLA+ predicates over the recorded chain", "The laws of C07 are state predicates of API.tla evaluated by TLC on every recorded FindNextMatch chain (both directions, n in {-1,0,1,2,3}), with the chain of independent searches recomputed from the specification (fragment) or from the recorded StartingAt searches.", API_NOTE, "6/C07"),
  "C08": ("model_checking", API_TECH + "; well-formedness and ByteRange = byte offsets computed by API.tla's own UTF-8 decoder from the raw input bytes", "Every match object returned by every entry point is checked by TLC against the C08 invariants, with byte spans recomputed by the specification from the raw bytes (each invalid byte one rune).", API_NOTE, "6/C08"),
- "C09": ("model_checking", API_TECH + "; Replace/ReplaceFunc/Split = API.tla folds (ReplaceWith, Expand, ParseRepl, SplitWith) of the match sequence", "Replace, ReplaceFunc and Split outputs are recomputed by TLC as folds of the match sequence with the replacement mini-language parsed and expanded by the specification, for both directions, start offsets and counts.", API_NOTE, "6/C09"),
+ "C09": ("model_checking", API_TECH + "; Replace/ReplaceFunc/Split = API.tla folds (ReplaceWith, Expand, ParseRepl, SplitWith) of the match sequence; plus TLC-enumerated forward conformance of the replacement mini-language (Gen_Repl.tla: every replacement string up to the bound x six numbering contexts, replayed into the real Replace)", "Replace, ReplaceFunc and Split outputs are recomputed by TLC as folds of the match sequence with the replacement mini-language parsed and expanded by the specification, for both directions, start offsets and counts.", API_NOTE, "6/C09"),
 })
 REL_NOTE = "Trusted: TLC, CommunityModules Json/IOUtils, the verif hooks (VerifNaive copy, VerifOnFind, rewrite gates) which only replace the candidate search / switch rewrites off; outside the exact fragment liveness and equality are judged between two runs of the real engine."
 CLAIMED.update({
- "C03": ("model_checking", "trace validation of the SkipTo contract (every candidate-search event (from,to,found) recorded by a hook must skip only positions the TLA+ semantics proves dead) + relational observation validation: as-shipped vs naive scan of the same compiled program, judged by TLC (Obs_Rel)",
+ "C03": ("model_checking", "trace validation of the SkipTo contract (every candidate-search event (from,to,found) recorded by a hook must skip only positions the TLA+ semantics proves dead) + relational observation validation (random ASTs, accel shapes per find mode, patterns harvested from the repository's own tests): as-shipped vs naive scan of the same compiled program, judged by TLC (Obs_Rel)",
          "Every candidate search the engine performs is logged and TLC rejects it if any skipped position admits a match (RegexSem.Attempt inside the fragment); results with all acceleration disabled must be identical in position, length and captures for every start offset, for patterns biased to every find mode, both directions, code-gen analysis on/off.", REL_NOTE, "6/C03"),
  "C04": ("model_checking", "bounded-exhaustive model checking of the exported facts: TLC enumerates every string over a pattern-derived alphabet up to the bound and every attempt position, computes the matches with the TLA+ semantics and evaluates Facts.tla's meaning of each published fact",
          "Soundness of an over-approximation is decided over ALL strings of the bounded language and all positions: each fact exported from the real compile (min/max length, anchors, prefix(es), fixed-distance literal/sets, literal-after-loop, landmark chain, first-char set, Boyer-Moore prefix) must hold at every match the specification finds.",
          "Trusted: TLC, Json/IOUtils; set membership over the alphabet is taken from the engine's CharIn (class algebra is C16); exact oracle only inside the fragment; alphabet of 5 symbols, length <= 4 (5 in the thorough tier).", "6/C04"),
- "C05": ("model_checking", "relational observation validation judged by TLC (Obs_Rel): the same pattern compiled as shipped and with the tree-rewrite gates on, plus equality with the TLA+ semantics inside the fragment",
+ "C05": ("model_checking", "relational observation validation judged by TLC (Obs_Rel): the same pattern compiled as shipped and with the tree-rewrite gates on (random ASTs, accel shapes, patterns harvested from the repository's tests), plus equality with the TLA+ semantics (rel.spec) and a TLC-enumerated forward leg (Gen_Find families body3, body3g, atomseq: the shapes the rewrites inspect) replayed into the rewritten engine",
          "For every pattern, input and start offset the match and all captures with the rewrites (auto-atomic loops, ending-backtracking elimination, bump-along markers, prefix factoring, atomic-alternation reordering) must equal those with the rewrites gated off, and both equal RegexSem.Find inside the fragment.", REL_NOTE, "6/C05"),
 })
 TB = "Trusted: TLC, CommunityModules Json/IOUtils, Go's unicode tables (Unicode.tla), the harness printer."
 CLAIMED.update({
- "C16": ("model_checking", "observation validation against the TLA+ class algebra CharClass.tla: the real membership table over ALL runes is compared by TLC on every rune <= U+024F and on every breakpoint +-1 of both piecewise-constant membership functions (= everywhere), thorough: pointwise over all 1 114 112 runes",
+ "C16": ("model_checking", "TLC-enumerated forward conformance (Gen_Class.tla: every class from ordered pairs of 22 interacting parts x negation x subtraction x IgnoreCase x dialect, members predicted by CharClass!InClass and probed on the real engine) + observation validation against the TLA+ class algebra CharClass.tla (IgnoreCase = closure under simple case-fold orbits, exact over all of Unicode): the real membership table over ALL runes is compared by TLC on every rune <= U+024F and on every breakpoint +-1 of both piecewise-constant membership functions (= everywhere), thorough: pointwise over all 1 114 112 runes",
          "InClass is literally the sentence of the property; because both the specification's and the implementation's membership are piecewise constant between known breakpoints, agreement on all breakpoints +-1 is agreement on every rune. Six further lookup paths are compared on a sample domain.", TB + " Under IgnoreCase the domain is restricted as the property states.", "6/C16"),
  "C17": ("model_checking", "TLC enumerates the whole bounded domain of the TLA+ numbering function Groups!Numbering (every declaration sequence up to the bound x mode) and each prediction is replayed into the real engine through every observable of the name/number map",
          "A pure function with rich case analysis: one implementation test per element of its bounded domain, exhaustive within the bound.", TB, "6/C17"),
@@ -58,10 +58,10 @@ CLAIMED.update({
  "C06": ("model_checking", "TLC-enumerated bounded grammar (Gen_Find, RE2 dialect) replayed through all 22 adapter methods against Go's regexp as the oracle the property names; the TLA+ semantics is the third leg that localises differences",
          "The case space (patterns of the common syntax x all inputs up to a bound x n) is enumerated by the model checker and every adapter method is compared with the standard library on each case, including invalid UTF-8 and nil-ness; the specification must agree with the library too, otherwise the check reports itself broken.",
          "Oracle: Go's regexp (by the property's own wording). Common syntax = what regexp.Compile accepts among the enumerated families (no quantified nullable sub-pattern by construction).", "6/C06"),
- "C10": ("exploration", "TLC enumerates every token string up to a bound (Gen_Tokens.tla) and the repository's parser corpus; the replayer drives the whole API under recover and a watchdog and compares error classes with the TLA+ predicate ArgError",
+ "C10": ("exploration", "TLC enumerates every token string up to a bound (Gen_Tokens.tla); plus the repository's parser corpus and the string literals harvested from its own test files, on hostile and on pattern-derived subjects; the replayer drives the whole API under recover and a watchdog and compares error classes with the TLA+ predicate ArgError",
          "Exploration: outcome classes only (usable Regexp or parse error; calls return normally; errors are timeout, stack limit or the documented argument errors exactly when ArgError predicts).",
          "Not coverage-guided byte mutation (a different technique family); memory safety beyond panics is not addressed.", "6/C10 and 8"),
- "C11": ("model_checking", "TLC model checking of Pool.tla (all interleavings of Get/Select/Init/Scan/Put/Drop and the LRU) + race-detector stress on shared Regexps with results compared to sequential execution + trace validation of hook events (ownership intervals, reset state, program restore, cache bounds) against Pool.tla by TLC (Obs_Pool)",
+ "C11": ("model_checking", "TLC model checking of Pool.tla (all interleavings of Get/Select/Init/Scan/Put/Drop and of the cache's two critical sections CacheGet/CacheAdd; negative configuration without the second lookup) + schedule forcing inside the cache's critical sections validated by Obs_Pool (cache.atomic) + race-detector stress on shared Regexps with results compared to sequential execution + trace validation of hook events (ownership intervals, reset state, program restore, cache bounds) against Pool.tla by TLC (Obs_Pool)",
          "The design-level question (can two goroutines share a runner, can a runner come back with the quick program, is state reset) is decided on the model for every interleaving; the real code is then observed under the race detector and every logged event order must be a behaviour of the model, every result equal to the sequential one.",
          "Trusted: TLC, the Go race detector (observation instrument), hook events logged after acquisition / before release. The shared clock is C14's model.", "6/C11"),
  "C12": ("model_checking", "TLC model checking of Pool.tla (CleanAtScan, IdleIsFull, RightProgram, LRU) + TLC-enumerated call histories (Gen_Hist: every ordered pair over a reduced call alphabet, plus long pseudo-random histories) replayed on shared vs freshly compiled Regexps + trace validation of runner state at every scan start (Obs_Pool)",
@@ -102,6 +102,8 @@ m = {
   {"name": "StackPolicy", "path": "spec/StackPolicy.tla", "serves_properties": ["C13"], "kind_free_text": "state machine of the backtracking-stack growth policy, model checked; Obs_Stack.tla validates recorded growth traces and limit sweeps"},
   {"name": "Clock", "path": "spec/Clock.tla", "serves_properties": ["C14"], "kind_free_text": "state machine of the timeout clock with real time, model checked (MC_Clock.tla, Clock_*.cfg); Obs_Clock.tla validates recorded clock events"},
   {"name": "Pool", "path": "spec/Pool.tla", "serves_properties": ["C11", "C12"], "kind_free_text": "state machine of the runner pool / program switch / LRU, model checked (Pool.cfg, Pool_quick.cfg); Obs_Pool.tla validates hook event traces; Gen_Hist.tla enumerates call histories"},
+  {"name": "Gen_Class", "path": "spec/Gen_Class.tla", "serves_properties": ["C16"], "kind_free_text": "TLC-enumerated class vocabulary with predicted membership (forward conformance)"},
+  {"name": "Gen_Repl", "path": "spec/Gen_Repl.tla", "serves_properties": ["C09"], "kind_free_text": "TLC-enumerated replacement strings with predicted Replace results in six contexts (forward conformance of the replacement mini-language)"},
   {"name": "Gen_Tokens", "path": "spec/Gen_Tokens.tla", "serves_properties": ["C10"], "kind_free_text": "token-string enumeration and argument-error predicate"},
   {"name": "Obs_Find", "path": "spec/Obs_Find.tla", "serves_properties": ["C01", "C15"], "kind_free_text": "trace/observation validation spec: recorded find results must be behaviours of RegexSem"},
  ],
